@@ -1023,3 +1023,82 @@ Theorem credentials_isolated cx o i : op_client o <> i ->
   /\ assoc i (kj_iss (cx_kj (cred_step cx o))) = assoc i (kj_iss (cx_kj cx))
   /\ kj_own (cx_kj (cred_step cx o)) = kj_own (cx_kj cx).
 Proof. intro H. destruct (cred_step_frame cx o i H) as [A B]. repeat split; auto. apply cred_step_own. Qed.
+
+(* ------------------------------------------------------------------ delivery forms: encrypted wrappers *)
+(* the method classes on a delivered object are the method classes on the bare token [seen] gives: whatever
+   does not open to a JWS is given up on, in any state of the provider *)
+Lemma seen_equiv_jws cx ep now m hs w jdb :
+  jws_verify_w cx ep now m hs w jdb = jws_verify cx ep now m hs (seen w) jdb.
+Proof. unfold jws_verify_w, seen. destruct (open_assertion w); reflexivity. Qed.
+
+Lemma seen_equiv_request_param cx now w jdb :
+  request_param_verify_w cx now w jdb = request_param_verify cx now (seen w) jdb.
+Proof. unfold request_param_verify_w, seen. destruct (open_assertion w); reflexivity. Qed.
+
+Lemma verify_method_w_deliver cx ep q now jdb m :
+  verify_method_w cx ep q now jdb m = verify_method cx ep (deliver q) now jdb m.
+Proof.
+  destruct m; try reflexivity; cbn [verify_method_w verify_method deliver r_assertion r_request].
+  - destruct (w_assertion q); cbn [option_map]; [apply seen_equiv_jws|reflexivity].
+  - destruct (w_assertion q); cbn [option_map]; [apply seen_equiv_jws|reflexivity].
+  - destruct (w_request q); cbn [option_map]; [apply seen_equiv_request_param|reflexivity].
+Qed.
+
+(* a JWS-based method on unsigned content: never VOk, never an effect on the replay cache *)
+Lemma unsigned_refused_jws cx ep now m hs w jdb :
+  (forall t, open_assertion w <> OSigned t) -> jws_verify_w cx ep now m hs w jdb = (VSkip, jdb).
+Proof. unfold jws_verify_w. destruct (open_assertion w); intro H; try reflexivity. now destruct (H t). Qed.
+Lemma unsigned_refused_request_param cx now w jdb :
+  (forall t, open_assertion w <> OSigned t) -> request_param_verify_w cx now w jdb = (VSkip, jdb).
+Proof. unfold request_param_verify_w. destruct (open_assertion w); intro H; try reflexivity. now destruct (H t). Qed.
+
+Theorem unsigned_content_refused cx ep now w jdb :
+  (forall t, open_assertion w <> OSigned t) ->
+  jws_verify_w cx ep now MSecretJwt true w jdb = (VSkip, jdb)
+  /\ jws_verify_w cx ep now MPrivateJwt false w jdb = (VSkip, jdb)
+  /\ request_param_verify_w cx now w jdb = (VSkip, jdb).
+Proof.
+  intro H. repeat split; [apply unsigned_refused_jws|apply unsigned_refused_jws|apply unsigned_refused_request_param];
+    exact H.
+Qed.
+
+Lemma seen_signed w j : seen w = Jwt j -> j_alg j <> AlgNone -> open_assertion w = OSigned (Jwt j).
+Proof.
+  unfold seen. destruct (open_assertion w); intros H Hn; inversion H; subst; try reflexivity;
+    exfalso; apply Hn; reflexivity.
+Qed.
+
+Lemma deliver_unwrapped q : deliver (unwrapped q) = deliver q.
+Proof.
+  unfold deliver, unwrapped; cbn. destruct (w_assertion q), (w_request q); reflexivity.
+Qed.
+
+(* Encryption adds no authority.  A request accepted as X through client_secret_jwt / private_key_jwt /
+   request_param: the object that method looked at opens ([open_assertion]: decrypted with a key of the provider,
+   typed JWT) to a JWS - never to bare claims, to an undecryptable or an untyped wrapper -, the signature of that
+   JWS verifies under a key the key jar holds for X (or - HMAC - an own symmetric key of the provider), and the
+   same request with every wrapper taken off is accepted in the same way. *)
+Theorem wrapper_no_authority cx ep q now jdb jdb' ai X :
+  client_authentication_w cx ep q now jdb = (Ok (Some ai), jdb') ->
+  ai_client ai = Some X ->
+  jws_method (ai_method ai) = true ->
+  (exists w j, used_wire q (ai_method ai) = Some w /\ open_assertion w = OSigned (Jwt j)
+     /\ j_alg j <> AlgNone /\ signed_by_client cx X j)
+  /\ client_authentication_w cx ep (unwrapped q) now jdb = (Ok (Some ai), jdb').
+Proof.
+  unfold client_authentication_w. intros H HX Hm. split; [|rewrite deliver_unwrapped; exact H].
+  assert (authenticating (ai_method ai) = true) as Hau by (destruct (ai_method ai); try discriminate; reflexivity).
+  destruct (sound _ _ _ _ _ _ _ _ H HX Hau) as [_ [_ Hc]].
+  assert (forall (f : option wire) j, option_map seen f = Some (Jwt j) -> j_alg j <> AlgNone ->
+            exists w, f = Some w /\ open_assertion w = OSigned (Jwt j)) as W.
+  { intros [w|] j Hs Hn; cbn in Hs; [|discriminate]. injection Hs as Hs'. exists w. split; [reflexivity|].
+    apply seen_signed; assumption. }
+  inversion Hc; subst;
+    match goal with Hq : _ = ai_method ai |- _ => rewrite <- Hq in *; try discriminate end;
+    cbn [used_wire]; cbn [deliver r_assertion r_request] in *.
+  all: match goal with Hr : option_map seen _ = Some (Jwt ?j0) |- _ =>
+         assert (j_alg j0 <> AlgNone) as Hn
+           by (repeat match goal with Ha : _ \/ _ |- _ => destruct Ha end; congruence);
+         destruct (W _ _ Hr Hn) as [w [Hw Ho]]; exists w, j0; repeat split; assumption
+       end.
+Qed.
